@@ -83,7 +83,11 @@ def run(ctx):
                       "serializes a number the schema's 'boolean' rejects)", floor=5)
     ctx.rule("R16.g", "every value class the Number validator accepts is accepted by the emitted schema keywords, also for inclusivity flags that are not literally True/False "
                       "(0, 1): abstract interpretation of both sides on bounds x flags x ordering class (exhaustive)", floor=1)
+    ctx.rule("R16.n", "the serialized form has the JSON type the schema states for EVERY valid value: the codecs of the schema-supported container types map None -- and only None -- to null "
+                      "(a truthiness test serializes the empty tuple of a length-0 Tuple as null while the schema says array) -- shared with R15.d", floor=4)
     ctx.not_decided += ["that arbitrary serialized values validate against the schema (needs a validator run)", "Selector enum contents (run-time objects)"]
+    from checks.c15 import codec_none_guards
+    codec_none_guards(ctx, "R16.n", only=("Tuple", "NumericTuple", "XYCoordinates", "Range", "Date", "CalendarDate", "DateRange", "CalendarDateRange"))
     cls = ctx.repo.cls(SER)
     methods = {m for m in cls.methods if m.endswith("_schema")}
 
